@@ -296,7 +296,13 @@ func (s *Service) housekeepAttestedMap(_ context.Context,
 	epoch := s.chainTime.SlotToEpoch(duty.Slot())
 	if epoch > 1 {
 		s.attestedMu.Lock()
-		delete(s.attested, epoch-2)
+		// Remove everything older than the previous epoch, not just the epoch two back, so that
+		// epochs that were skipped or in which no attestation succeeded do not linger for ever.
+		for attestedEpoch := range s.attested {
+			if attestedEpoch+1 < epoch {
+				delete(s.attested, attestedEpoch)
+			}
+		}
 		s.attestedMu.Unlock()
 	}
 }
